@@ -88,6 +88,13 @@ func toEvents(ds []dg) []core.Event {
 	out := make([]core.Event, len(ds))
 	for i, d := range ds {
 		out[i] = core.Event{"op": "dgram", "kind": d.Kind, "hex": hex.EncodeToString(d.B)}
+		if len(d.Prior) > 0 {
+			var ps []string
+			for _, pb := range d.Prior {
+				ps = append(ps, hex.EncodeToString(pb))
+			}
+			out[i]["prior"] = ps
+		}
 	}
 	return out
 }
@@ -124,7 +131,7 @@ func TestExplore(t *testing.T) {
 				if err != nil {
 					t.Fatalf("generator: %v", err)
 				}
-				ds = append(ds, dg{"class:" + c.Expect, b})
+				ds = append(ds, dg{Kind: "class:" + c.Expect, B: b})
 				st.ClassesCovered++
 			}
 		}
@@ -142,6 +149,7 @@ func TestExplore(t *testing.T) {
 			nrandom /= 4
 		}
 		ds = append(ds, globalDatagrams(bases, secret, rng, nrandom)...)
+		ds = append(ds, pairDatagrams(bases, secret, rng, full)...)
 		evs := toEvents(ds)
 		for k := 0; k*chainLen < len(evs); k++ {
 			hi := (k + 1) * chainLen
@@ -260,7 +268,11 @@ func replay(t *testing.T, file, out string) {
 		}
 		var evs []core.Event
 		for _, e := range c.Events {
-			evs = append(evs, core.Event{"op": "dgram", "kind": e["kind"], "hex": e["hex"]})
+			ne := core.Event{"op": "dgram", "kind": e["kind"], "hex": e["hex"]}
+			if pv, ok := e["prior"]; ok {
+				ne["prior"] = pv
+			}
+			evs = append(evs, ne)
 		}
 		jobs = append(jobs, chainJob{name + "#" + c.ID, secret, evs})
 	}
